@@ -302,6 +302,25 @@ CLAIMED.update({
                   "projections with the ones recorded at the original.", "DESIGN.md 5 (C42)"),
 })
 
+CLAIMED.update({
+    "C09": dict(category="model_checking",
+        text="TLC model-checks the intended design of branches/tags/shallow clones (LanceRefs.tla: per-location version histories, parent refs, "
+             "tags, object tree with ownership) for TagResolves, RefResolves, BranchIsolation, OwnHistoryKept, DeleteRemovesOnlyOwn, "
+             "DeleteRemovesAllOwn and OnlyOwnStorageTouched over all histories of 4 (quick) / 5-6 (thorough) operations on prefix-related and "
+             "sibling names (a, ab, a/b, a/bc, b), and confirms that each as-built deviation breaks exactly the named property. Histories "
+             "generated by TLC (one per distinct final state, seeded simulation for deeper ones, plus the deviation counterexamples) are replayed "
+             "on real datasets; after every step every other (location, version), every tag and the object-tree listing are recorded and judged "
+             "by TLC (Trace_LanceRefs.tla). The documented name grammar (branch_tag.md) is written token-wise in TLA+ and compared with "
+             "check_valid_branch / check_valid_tag on every string up to length 5 (quick) / 6 (thorough) over a 10-token alphabet.",
+        design_ref="DESIGN.md 3.5, 5 (C09), 8 (#2, #3)",
+        note="trusted: TLC; tablekit projection; local file system store; a branch is deleted only when nothing depends on it; a shallow clone "
+             "losing files to a cleanup of its source is documented behaviour (layout.md) and only counted; non-ASCII alphanumerics not "
+             "enumerated; known findings: cleanup ignores files other branches reference through base paths; deleting a branch that has "
+             "sub-branches keeps its own files",
+        technique="TLA+ state machine + action properties checked by TLC; TLC-generated histories and exhaustive name universe replayed on the "
+                  "real lance crate; TLC trace validation"),
+})
+
 PENDING_REASON = "not yet bound to the implementation by a registered check in this snapshot (see DESIGN.md status table)"
 
 ALL = ["C%02d" % i for i in range(1, 44)]
